@@ -597,6 +597,9 @@ type wOutput struct {
 	secret  string // "" while unknown
 	by      *wWal
 	op      int
+	// signed for a keyset the signing wallet's store did not know (a receive from a mint it does not trust): the wallet keeps
+	// no counter for such a keyset (known finding), so a later request at that mint starts from counter 0 again
+	untrusted bool
 }
 
 type wToken struct {
